@@ -93,7 +93,6 @@ Definition check_frame (b : list byte) (len oc : N) (re : list byte) (tag lenv t
   let tag_ok := if N.eqb tagged 1 then N.eqb (u16_at b 12) 33024 && N.eqb (u16_at b 14) tci && N.eqb (u16_at b 16) et
                 else N.eqb (u16_at b 12) et in
   if common && tag_ok && N.eqb same 1 then mkv agree true
-  else if agree && common && N.eqb tagged 1 && N.eqb (N.land tci 4095) 0 && N.eqb (u16_at b 12) et then VKnown 31
   else mkv agree false.
 
 (* lanes: each word carries the input and what the library made of it *)
